@@ -7,6 +7,7 @@ from math import comb, sqrt
 
 from vf.combi import combinations_range, digits
 from vf.core import Job, new_result, viol
+from vf.guard import guarded, too_many_hangs
 
 LEVEL = "exploration"
 RULE = (
@@ -115,7 +116,7 @@ def check_path(path, s, goalset, w, objective, lab_inv):
 LABELS = [None, ["a", "b", "c", "d"], [("p", 0), ("p", 1), ("q", 0), ("q", 1)]]
 
 
-def run_nonneg(r, n, arcs, full):
+def _run_nonneg(r, n, arcs, full):
     """All solvers that need non-negative weights on one graph (arcs: ordered list, parallel edges allowed)."""
     from solvor.a_star import astar
     from solvor.bellman_ford import bellman_ford
@@ -283,7 +284,7 @@ def run_nonneg(r, n, arcs, full):
         r["samples"].append(wit)
 
 
-def run_negative(r, n, arcs):
+def _run_negative(r, n, arcs):
     """bellman_ford and floyd_warshall with negative weights."""
     from solvor.bellman_ford import bellman_ford
     from solvor.floyd_warshall import floyd_warshall
@@ -371,6 +372,49 @@ def run_negative(r, n, arcs):
         r["samples"].append(wit)
 
 
+def _merge(r, r2):
+    r["n"] += r2["n"]
+    r["nontrivial"] += r2["nontrivial"]
+    r["outcomes"].update(r2["outcomes"])
+    r["counters"].update(r2["counters"])
+    r["violations"].extend(r2["violations"])
+    if not r["samples"]:
+        r["samples"].extend(r2["samples"][:1])
+
+
+def _guarded_suite(r, fn, args, wit, what):
+    """Run the whole solver suite for one graph/grid under one termination guard (alarm, then JUMP fuel)."""
+    box = {}
+
+    def go():
+        box["r"] = new_result()
+        fn(box["r"], *args)
+        return True
+
+    _, verdict = guarded(go, 20.0, 200_000_000)
+    if verdict:
+        r["n"] += 1
+        r["outcomes"]["nontermination"] += 1
+        r["counters"]["hangs"] += 1
+        r["violations"].append(viol(what, "nontermination", wit, f"a solver of the {what} suite did not return within the fuel budget on {wit}"))
+    else:
+        _merge(r, box["r"])
+
+
+def run_nonneg(r, n, arcs, full):
+    _guarded_suite(r, _run_nonneg, (n, arcs, full), {"n": n, "arcs": [list(a) for a in arcs]}, "shortest_path")
+
+
+def run_negative(r, n, arcs):
+    _guarded_suite(r, _run_negative, (n, arcs), {"n": n, "arcs": [list(a) for a in arcs]}, "shortest_path")
+
+
+def run_grid(r, rows, cols, cells, hmode, costs=None):
+    grid = [list(cells[i * cols : (i + 1) * cols]) for i in range(rows)]
+    _guarded_suite(r, _run_grid, (rows, cols, cells, hmode, costs), {"grid": grid, "costs": {str(k): v for k, v in (costs or {}).items()}}, "astar_grid")
+
+
+
 # ------------------------------------------------------------------------------------ graph chunk fns
 
 
@@ -387,7 +431,7 @@ def _n3_chunk(params, lo, hi):
         if idx % 2:
             arcs.reverse()
         run_nonneg(r, 3, arcs, full=(idx % full_mod == 0))
-        if len(r["violations"]) >= 40:
+        if len(r["violations"]) >= 40 or r["counters"]["hangs"] >= 2 or too_many_hangs():
             r["capped"] = True
             break
     return r
@@ -402,7 +446,7 @@ def _par_chunk(params, lo, hi):
         ds = digits(idx, len(opts), 6)
         arcs = [(slots[i][0], slots[i][1], x) for i, d in enumerate(ds) for x in opts[d]]
         run_nonneg(r, 3, arcs, full=False)
-        if len(r["violations"]) >= 40:
+        if len(r["violations"]) >= 40 or r["counters"]["hangs"] >= 2 or too_many_hangs():
             r["capped"] = True
             break
     return r
@@ -426,7 +470,7 @@ def _n4_chunk(params, lo, hi):
                 run_negative(r, 4, arcs)
             else:
                 run_nonneg(r, 4, arcs, full=False)
-        if len(r["violations"]) >= 40:
+        if len(r["violations"]) >= 40 or r["counters"]["hangs"] >= 2 or too_many_hangs():
             r["capped"] = True
             break
     return r
@@ -442,7 +486,7 @@ def _neg3_chunk(params, lo, hi):
         if idx % 2:
             arcs.reverse()
         run_negative(r, 3, arcs)
-        if len(r["violations"]) >= 40:
+        if len(r["violations"]) >= 40 or r["counters"]["hangs"] >= 2 or too_many_hangs():
             r["capped"] = True
             break
     return r
@@ -478,7 +522,7 @@ H4 = ["auto", "manhattan", "octile", "euclidean", "chebyshev"]
 H8 = ["auto", "octile", "euclidean", "chebyshev"]
 
 
-def run_grid(r, rows, cols, cells, hmode, costs=None):
+def _run_grid(r, rows, cols, cells, hmode, costs=None):
     from solvor.a_star import astar_grid
     from solvor.types import Status
 
@@ -539,7 +583,7 @@ def _grid_chunk(params, lo, hi):
     for idx in range(lo, hi):
         cells = digits(idx, 2, rows * cols)
         run_grid(r, rows, cols, cells, hmode)
-        if len(r["violations"]) >= 40:
+        if len(r["violations"]) >= 40 or r["counters"]["hangs"] >= 2 or too_many_hangs():
             r["capped"] = True
             break
     return r
@@ -551,7 +595,7 @@ def _terrain_chunk(params, lo, hi):
     for idx in range(lo, hi):
         cells = [(0, 1, 2)[d] for d in digits(idx, 3, rows * cols)]
         run_grid(r, rows, cols, cells, "auto", costs={0: 1.0, 2: 3.0})
-        if len(r["violations"]) >= 40:
+        if len(r["violations"]) >= 40 or r["counters"]["hangs"] >= 2 or too_many_hangs():
             r["capped"] = True
             break
     return r
@@ -594,6 +638,10 @@ def replay(v):
         cells = [x for row in g for x in row]
         costs = {int(k): val for k, val in w.get("costs", {}).items()} or None
         run_grid(r, len(g), len(g[0]), cells, "all", costs)
+    elif v["kind"] == "nontermination":
+        arcs = [tuple(a) for a in w["arcs"]]
+        run_nonneg(r, w["n"], arcs, True)
+        run_negative(r, w["n"], arcs)
     else:
         arcs = [tuple(a) for a in w["arcs"]]
         if any(a[2] < 0 for a in arcs):
